@@ -314,6 +314,32 @@ static void case_illposed(const Spec2& spec) {
   sx::reached("net2d-illposed");
 }
 
+// C14: one observation carries an unbounded gross error: the solver splits at tol-abs; kept => |abs.term| <= tol and the result is the
+// oracle's with it; rejected => |abs.term| > tol, it is listed as rejected and the result is the oracle's without it
+static void case_outlier(const Spec2& spec, int alg, int k) {
+  std::vector<Real> err = sym_errors(spec);
+  int kind = -1; { int q = 0; for (auto& st : spec.st) for (auto& ob : st.obs) { if (q == k) kind = ob.kind; q++; } }
+  Real g = sx::input("gross"); if (kind == 1) sx::assume_range(g, Q(-3), Q(3)); else sx::assume_range(g, Q(-1, 100), Q(1, 100));       // +-3 m on a distance, +-0.01 rad (6366 cc) on a direction or angle; tol-abs = 1000 (mm, cc)
+  err[k] = err[k] + g;
+  B2 b; if (!build2d(b, spec, err, ALGS[alg])) return; std::string tag = std::string(ALGS[alg]) + " gross error in observation " + std::to_string(k + 1);
+  R2 r = run2d(b, false); LocalNetwork* IS = b.net.IS.get();
+  bool rejected = false; for (Observation* o : IS->rejected_observations()) if (o == b.obs[k]) rejected = true; else sx::fail(tag + " another observation was rejected", "");
+  sx::check_true(r.ok, tag + " adjusted", r.why); if (!r.ok) return;
+  // the decision against the threshold, on the abs. term stated from the specification
+  Real l = (kind == 1) ? (err[k]) * sx::rat(1000) : to_cc(err[k]); Real tol = IS->tol_abs();
+  if (kind == 0) { /* the approximate orientation of the set absorbs part of the error: the term is taken from the oracle below */ }
+  if (rejected) b.passive.push_back(k);
+  make_oracle2d(b, tag); Oracle& o = b.orc; if (!o.resolves) return;
+  if (kind != 0) { if (rejected) sx::check_true(true, "", ""); Real a = l; if (rejected) { sx::check_lt(tol * tol, a * a, tag + " rejected => |abs.term| > tol-abs"); } else sx::check_le(a * a, tol * tol, tag + " kept => |abs.term| <= tol-abs"); }
+  sx::check_true(r.m == o.A.r && r.n == o.A.c, tag + (rejected ? " (rejected)" : " (kept)") + " equations and unknowns", std::to_string(r.m) + "x" + std::to_string(r.n) + " vs " + std::to_string(o.A.r) + "x" + std::to_string(o.A.c));
+  if (r.m != o.A.r || r.n != o.A.c) return;
+  for (int j = 1; j <= r.n; j++) { int c = o.col(IS->unknown_pointid(j).str(), IS->unknown_type(j)); if (c >= 0) sx::check_eq(r.x[uname(IS, j)], o.x[c], tag + (rejected ? " (rejected)" : " (kept)") + " correction of " + uname(IS, j)); }
+  for (int i = 0; i < r.m; i++) sx::check_eq(r.r[i], o.r[i], tag + (rejected ? " (rejected)" : " (kept)") + " residual " + std::to_string(i + 1));
+  sx::check_eq(r.vpv, o.vpv, tag + (rejected ? " (rejected)" : " (kept)") + " sum of squares");
+  sx::note("outcome", rejected ? "rejected" : "kept");
+  sx::reached("net2d-outlier");
+}
+
 // ---- families ---------------------------------------------------------------------------------------------
 static Spec2 quad(const std::string& name, const std::string& status, bool with_dist, bool with_angles, int seed) {
   Spec2 s; s.name = name; qla::Rng rng(seed);
@@ -360,6 +386,8 @@ static void gen_cases(const sx::Options& opt, std::vector<sx::Case>& cases) {
     { Spec2 s = quad("ill-angle-first-target", "ffaaa", true, false, 28); for (auto& st : s.st) { std::vector<O2> keep; for (auto& o : st.obs) if (o.to != 4 && st.from != 4) keep.push_back(o); st.obs = keep; }
       s.st.erase(std::remove_if(s.st.begin(), s.st.end(), [](const St2& t) { return t.obs.empty(); }), s.st.end()); s.st[1].obs.push_back({2, 4, 2, Q(15)}); ill.push_back(s); }   // E is only the first target of one angle
     for (auto& s : ill) { auto sp = std::make_shared<Spec2>(s); add("net2d/illposed/" + s.name, "plane networks", [sp] { case_illposed(*sp); }); } }
+  if (on("C14")) { int k = 0; for (auto& s : fixed) { if (&s != &fixed[0] && !th) continue; int nobs = 0; for (auto& st : s.st) nobs += (int)st.obs.size();
+      for (int q = 0; q < nobs; q += (th ? 2 : 5)) { int alg = (k++) % 3; auto sp = std::make_shared<Spec2>(s); add("net2d/outlier/" + s.name + "/" + ALGS[alg] + "/obs" + std::to_string(q), "plane networks", [sp, alg, q] { case_outlier(*sp, alg, q); }); } } }
   if (on("C08")) { for (int alg = 0; alg < 3; alg++) { auto sp = std::make_shared<Spec2>(freen[0]); add(std::string("net2d/datum/quad-dd/") + ALGS[alg], "plane networks", [sp, alg] { case_datum(*sp, alg, {"ccccc", "ccaaa", "acaca", "aaccc"}); });
       auto sq = std::make_shared<Spec2>(freen[1]); add(std::string("net2d/datum/quad-d/") + ALGS[alg], "plane networks", [sq, alg] { case_datum(*sq, alg, {"ccccc", "ccaaa", "acaca"}); }); } }
 }
